@@ -196,6 +196,11 @@ class Pipe:
             self._end()
 
     def add_response(self, response, is_last=False):
+        if response is None:
+            # An event without message and exception is the tombstone that
+            # tells handlers that a pipe has ended; the request would go
+            # unanswered if it were passed on as a response.
+            raise TypeError("A response needs to be a message, not None")
         self._add_event(self.Event(response, None, is_last))
 
     def add_exception(self, exception):
